@@ -35,7 +35,7 @@ MANIFEST = {
 
 
 def plan(tier):
-    t = 300 if tier == "quick" else 1200
+    t = 300 if tier == "quick" else 900
     return [
         K("k_filter", "kjobs.c15", "directory_filter", "test/docs directory filter"),
         CH("ast_selection", "harness.c15", "ast_selection", [f"0:{a},1:{b}" for a in range(2) for b in range(2)], timeout=t,
